@@ -18,6 +18,10 @@ package handlers
 //@   requires [memo_sound] forall d string :: {has(casMemo, d)} has(casMemo, d) ==> has(bstored, "cas/" + d)
 //@   ensures [missing_output_is_error] !has(fsIsFile, pathJoin(config.Global.WorkspaceRoot, pathJoin(target.Label.Package, output.Identifier))) ==> err != nil
 //@   ensures [nil_on_error] err != nil ==> r == nil
+//@   ensures [records_the_file_as_it_is] err == nil ==> r != nil && typeIs(r.Kind, "*gen.Output_File") && asPtr(r.Kind, "*gen.Output_File").File != nil &&
+//@        asPtr(r.Kind, "*gen.Output_File").File.Path == output.Identifier &&
+//@        asPtr(r.Kind, "*gen.Output_File").File.Digest != nil && asPtr(r.Kind, "*gen.Output_File").File.Digest.Hash == H(old(select(fsData, pathJoin(config.Global.WorkspaceRoot, pathJoin(target.Label.Package, output.Identifier))))) &&
+//@        (asPtr(r.Kind, "*gen.Output_File").File.IsExecutable <==> old(has(fsExec, pathJoin(config.Global.WorkspaceRoot, pathJoin(target.Label.Package, output.Identifier)))))
 
 //@ func restoreExecutableBit(path, file) (err)
 //@   pure
